@@ -468,12 +468,40 @@ def contracts(reg):
     # private helpers are under contract for modularity only: where a helper was renamed / inlined / deleted, its callers are
     # verified with whatever they call now (functions without contract are executed in place)
     have = loader.module(AES).functions
-    out = [c for c in out if not (c.target.split("::")[-1] in OPTIONAL_HELPERS and c.target.split("::")[-1] not in have)]
-    return [bind_by_position(c) for c in out]
+    out = [c for c in out if not (getattr(c, "role", c.target.split("::")[-1]) in OPTIONAL_HELPERS and c.target.split("::")[-1] not in have)]
+    return [guard_clauses(bind_by_position(c)) for c in out]
+
+
+def guard_clauses(c):
+    """A clause of this pack that trips over a value of a kind it does not know (a Python exception inside pack code on changed
+    input) says nothing about the code: it is `Unsupported` -- the function is undecided and the native replayer decides."""
+    def safe(fn):
+        if fn is None:
+            return None
+
+        def w(*a, **k):
+            try:
+                return fn(*a, **k)
+            except (AttributeError, TypeError, KeyError, IndexError, ValueError) as e:
+                raise ops.Unsupported(f"contract clause not applicable to this shape: {type(e).__name__}: {e}"[:200])
+        return w
+    c.requires, c.hyps, c.returns, c.result_maker, c.decreases = safe(c.requires), safe(c.hyps), safe(c.returns), safe(c.result_maker), safe(c.decreases)
+    c.ensures = [(lb, safe(f)) for lb, f in c.ensures]
+    c.exc_ensures = [(lb, safe(f)) for lb, f in c.exc_ensures]
+    for r in c.raises:
+        r.when = safe(r.when)
+    c.final = {k: safe(f) for k, f in c.final.items()}
+    for sp in c.loops.values():
+        if getattr(sp, "inv", None) is not None:
+            sp.inv = safe(sp.inv)
+        if getattr(sp, "inv_point", None) is not None:
+            sp.inv_point = safe(sp.inv_point)
+    return c
 
 
 OPTIONAL_HELPERS = {"_xtime", "_gf_mul", "_build_mul_table", "_add_round_key", "_sub_bytes", "_inv_sub_bytes", "_shift_rows", "_inv_shift_rows",
-                    "_mix_columns", "_inv_mix_columns", "_build_rcon", "_rcon", "_rot_word", "_sub_word", "_chunks"}
+                    "_mix_columns", "_inv_mix_columns", "_build_rcon", "_rcon", "_rot_word", "_sub_word", "_chunks",
+                    "_pkcs7_pad", "_pkcs7_unpad"}     # (the CryptAES.* contracts are stated on the data, with or without these helpers)
 
 
 ROLE_NAMES = ("aes_ecb_encrypt", "aes_ecb_decrypt", "aes_cbc_encrypt", "aes_cbc_decrypt", "_get_round_keys", "_expand_key",
@@ -1094,17 +1122,19 @@ def mode_contracts(reg):
         return M.seq_eq(nx, ax, ny, ay)
 
     def enc_post(c):
-        pad, enc = the_call(c, "padded"), the_call(c, "cbc_enc")
-        if pad is None or enc is None:
-            raise ops.Unsupported("wrapper does not call _pkcs7_pad and aes_cbc_encrypt exactly once")
+        """stated on the DATA that reaches CBC, not on which helper produced it: padding done by a helper or in place alike"""
+        enc = the_call(c, "cbc_enc")
+        if enc is None:
+            raise ops.Unsupported("wrapper does not call aes_cbc_encrypt exactly once")
         key = c.entry.obj(c.args["self"].ref).data["key"]
+        n, a = M.arr_of(c.args["data"])
         rn, ra = M.arr_of(c.result)
         en, ea = M.arr_of(enc[2])
+        pn, pa = M.arr_of(enc[1]["data"])
         ivn, iva = M.arr_of(enc[1]["iv"])
-        return z3.And(same_bytes(pad[1]["data"], c.args["data"]),          # pads the caller's data ...
-                      same_bytes(enc[1]["data"], pad[2]),                  # ... encrypts exactly the padded data ...
+        return z3.And(M.pad_rel(n, a, pn, pa),                             # CBC gets the caller's data followed by p bytes of value p ...
                       same_bytes(enc[1]["key"], key), ivn == 16,           # ... under self.key and a 16-byte IV ...
-                      rn == 16 + en, M.seq_eq(16, ra, 16, iva),            # ... and returns IV || ciphertext
+                      rn == 16 + en, M.seq_eq(16, ra, 16, iva),            # ... and the result is IV || ciphertext
                       M.seq_eq(en, M.view(ra, 16), en, ea))
 
     def iv_fresh(c):
@@ -1132,21 +1162,24 @@ def mode_contracts(reg):
     ))
 
     def dec_post(c):
+        """stated on the CBC call and on the relation between its plaintext and the result (unpadding by a helper or in place)"""
         n, a = M.arr_of(c.args["data"])
         rn, ra = M.arr_of(c.result)
-        dec, unp = the_call(c, "cbc_dec"), the_call(c, "unpadded")
-        if dec is None or unp is None:
+        dec = the_call(c, "cbc_dec")
+        if dec is None:
+            if [x for x in in_call(c) if x[0] == "cbc_dec"]:
+                raise ops.Unsupported("wrapper calls aes_cbc_decrypt more than once")
             # the early return for an empty payload
             return z3.And(n <= 16, rn == 0)
         key = c.entry.obj(c.args["self"].ref).data["key"]
         pn, pa = M.arr_of(dec[1]["data"])
         ivn, iva = M.arr_of(dec[1]["iv"])
+        dn, da = M.arr_of(dec[2])
         aligned = (n - 16) % 16 == 0
         return z3.And(n > 16, same_bytes(dec[1]["key"], key),
                       ivn == 16, M.seq_eq(16, iva, 16, a),                                   # IV = first 16 bytes
                       z3.Implies(aligned, z3.And(pn == n - 16, M.seq_eq(pn, pa, pn, M.view(a, 16)))),   # payload = the rest
-                      same_bytes(unp[1]["data"], dec[2]),                                     # unpads exactly the CBC plaintext
-                      same_bytes(c.result, unp[2]))
+                      M.unpad_rel(dn, da, rn, ra))                                            # result = CBC plaintext without its padding
 
     out.append(role_contract(
         "decrypt", "_cryptaes_decrypt", {"self": SELF, "data": DATA},
@@ -1295,7 +1328,7 @@ def post_report(contract, rep):
             for kind in ("modifies", "final"):
                 if o["id"].endswith(f"/{kind}#{real}"):
                     o["id"] = o["id"][:-len(real)] + role
-    if contract.target.split("::")[-1] in OPTIONAL_HELPERS:
+    if getattr(contract, "role", contract.target.split("::")[-1]) in OPTIONAL_HELPERS:
         for o in rep.obligations:
             o["volatile"] = True          # exists only while the helper exists (not locked; the callers' obligations are)
     if getattr(contract, "role_guessed", False):
@@ -1498,7 +1531,21 @@ def cache_policy(repo, tier):
     return {"obligations": [ob]}
 
 
-EXTRA = [table_checks, install_site, cache_policy, chunks_iteration]
+def _guarded(fn, subject):
+    """an exception inside an EXTRA analysis on changed input is a shape this pack does not understand: `unknown` (native replay)"""
+    def run(repo, tier):
+        try:
+            return fn(repo, tier)
+        except Exception as e:  # noqa
+            return {"obligations": [{"id": f"C20/_pypdf_aes_fallback.py::{subject}/out-of-subset", "kind": "out-of-subset", "status": "unknown", "vcs": 0,
+                                     "seconds": 0.0, "backends": {}, "witness": None, "volatile": True, "function": f"{AES}::{subject}", "loc": "",
+                                     "reason": f"OUT-OF-SUBSET analysis not applicable to this shape: {type(e).__name__}: {e}"[:300]}]}
+    run.__name__ = fn.__name__
+    return run
+
+
+EXTRA = [_guarded(table_checks, "tables"), _guarded(install_site, "patch_pypdf_fallback_aes"), _guarded(cache_policy, "_ROUND_KEY_CACHE"),
+         _guarded(chunks_iteration, "_chunks")]
 LOCK_OPTIONAL_KINDS = ("slice-store-in-range", "call-pre")       # exist only while the code has that store / call form
 REPLAY_UNKNOWN = True
 from contracts.c20_modes import C20Executor as EXECUTOR  # noqa: E402
